@@ -553,9 +553,22 @@ fn gen_shortcut_raw(rng: &mut Rng, cfg: &GenCfg) -> Node {
         // X*Y with related / unrelated / anchor followers -> unambiguous-repeat rewrite
         3 | 4 => {
             let x = single(rng);
-            let y = match rng.below(8) {
+            let y = match rng.below(9) {
                 0 => Node::Bol,
                 1 => Node::Eol,
+                // an alternation one of whose branches may or may not start with the repeated term:
+                // an optional (greedy or reluctant) lead-in followed by the repeated term itself
+                8 => {
+                    let lead = Node::Repeat { body: Box::new(single(rng)), min: 0, max: if rng.chance(1, 2) { Some(1) } else { None }, greedy: rng.chance(1, 2), spell: 0 };
+                    let other = single(rng);
+                    let first = Node::Cat(vec![lead, x.clone()]);
+                    let alt = if rng.chance(1, 2) { Node::Alt(vec![first, other]) } else { Node::Alt(vec![other, first]) };
+                    if rng.chance(1, 3) {
+                        Node::Group(Box::new(alt))
+                    } else {
+                        Node::NcGroup(Box::new(alt))
+                    }
+                }
                 // followers that can match nothing: what comes after them decides
                 5 => {
                     let s1 = single(rng);
